@@ -629,7 +629,12 @@ static void c_exec(const plan_t *p)
 #endif
     }
     cap = 64 * (uint64_t)(totalops + K) + 64;
+    /* the interleaving hash starts from the scenario (everything but the scheduler's own parameters) */
     g_run.statehash = 0xcbf29ce484222325ull;
+    g_run.statehash = fnv1a(g_run.statehash, (uint64_t)K * 4 + (uint64_t)nblk);
+    for (t = 0; t < K; t++) g_run.statehash = fnv1a(g_run.statehash, p->cfg[CF_INIT0 + t]);
+    g_run.statehash = fnv1a(g_run.statehash, p->cfg[CF_MAINKEEPS]);
+    for (k = 0; k < p->nops; k++) g_run.statehash = fnv1a(g_run.statehash, (uint64_t)p->ops[k].kind * 64 + (p->ops[k].a[0] % 4) * 16 + (p->ops[k].a[1] % 2) * 2 + (p->ops[k].a[2] % 2));
     g_cur_ctx = "task";
     run_tasks();
     g_run.steps = steps;
